@@ -19,6 +19,14 @@ CHECKS={
    text="Exploration: for every emitted function of generated programs (zero page / absolute / split-port / ROM operands, inline asm with and without hints) the reported size must equal the assembled size.",
    note="Trusted: asm6502's dasm-compatible zero-page/absolute selection; layout contract Zeropage < $100 <= others.",
    ref="DESIGN.md 5/C04"),
+ "C07":dict(technique="property-based testing with a constructive model: random conditional-directive trees generated together with their expected surviving lines / first live #error",
+   text="Exploration: random well-nested #if/#ifdef/#ifndef/#elif/#else/#endif trees (depth <= 5) with marker declarations, #define/#undef/#error/#include in every region; the set of declarations that reaches the compiler must equal the model's.",
+   note="Trusted: the 100-line model of the condition language (0/1 literals, macros with 0/1 values, !, ==); valueless macros are only tested with #ifdef/#ifndef.",
+   ref="DESIGN.md 5/C07"),
+ "C10":dict(technique="property-based testing: random constant-expression trees vs. exact ISO-C evaluation (64-bit reference evaluator), in every constant position and folded in statements (value read back from the emulator)",
+   text="Exploration: random trees over all operators of the statement, printed with C-minimal parentheses, in 7 syntactic positions; values must match, undefined cases (division by zero, 32-bit overflow, out-of-range literal or shift) must be rejected, panics are violations.",
+   note="Trusted: the reference evaluator; 'does not fit' = the evaluator's 32-bit range; conversion of an in-range constant to a narrower declared type is not demanded to be an error.",
+   ref="DESIGN.md 5/C10"),
  "C13":dict(technique="property-based testing: every emitted function of generated programs is assembled by an independent two-pass assembler (legal modes, defined symbols, unique labels, branch range)",
    text="Exploration over generated programs with heavy inlining, goto labels, long bodies and all optimisation levels; any assembler error is a violation.",
    note="Trusted: asm6502 (official 6502 opcode table, dasm operand syntax).",
